@@ -5,7 +5,8 @@ sys.path.insert(0, os.path.dirname(os.path.dirname(os.path.abspath(__file__))))
 from vlib import core, tv
 src = open(sys.argv[1]).read()
 if 'func NondetInt8' not in src:
-    src = src.replace('package main\n', 'package main\n' + tv.NONDET_DECLS, 1)
+    imps, rest = tv._hoist_imports(src.replace('package main\n', '', 1))
+    src = 'package main\n' + '\n'.join(imps) + '\n' + tv.NONDET_DECLS + rest
 cfg = json.loads(sys.argv[2]) if len(sys.argv) > 2 else {}
 d = os.path.join(core.scratch(), 'try')
 core.write_pkg(d, {'main.go': src})
